@@ -270,6 +270,7 @@ class ListRowContainer(Container):
         self._columns = columns
         self._columns_width = columns_width
         self._spacing = spacing
+        self._used_columns_width = columns_width
         self._numbering_widgets = []
 
     def render(self, width):
@@ -285,7 +286,9 @@ class ListRowContainer(Container):
         if self._columns_width is None:
             spaces_between_columns = self._columns - 1
             sum_spacing = spaces_between_columns * self._spacing
-            self._columns_width = int((width - sum_spacing) / self._columns)
+            self._used_columns_width = int((width - sum_spacing) / self._columns)
+        else:
+            self._used_columns_width = self._columns_width
 
         ordered_map = self._get_ordered_map()
         lines_per_rows = self._lines_per_every_row(ordered_map)
@@ -314,7 +317,7 @@ class ListRowContainer(Container):
                 row_pos = row_pos + lines_per_rows[row_id]
 
             # recompute the leftmost empty column
-            col_pos = max((col_pos + self._columns_width), self.width) + self._spacing
+            col_pos = max((col_pos + self._used_columns_width), self.width) + self._spacing
 
     def _lines_per_every_row(self, items):
         self._render_all_items()
@@ -334,8 +337,11 @@ class ListRowContainer(Container):
         return lines_per_row
 
     def _render_all_items(self):
+        # create labels for the current items, do not reuse labels of the previous rendering
+        self._numbering_widgets = []
+
         for item_id, item in enumerate(self._items):
-            item_width = self._columns_width
+            item_width = self._used_columns_width
 
             if item_width <= 0:
                 raise ValueError("Widget can't be rendered! Columns width is too small.")
